@@ -79,6 +79,17 @@ HISTORY = {
     "C11-r7-1": "round 7. first run: missed; the division guard now also hands the non-constant divisor over as list / tuple / nested list containing polynomials (numpoly spelling, or numpy spelling with a polynomial dividend)",
     "C17-r7-1": "round 7. first run: missed; new direct workload copyto_poly: a source whose terms are stored in shuffled order is copied (both spellings, and into a destination that lacks a term) and must stay unchanged",
     "C17-r7-2": "round 7. first run: missed; new direct workload foreign_arrays: big-endian / float32 ndarrays as data and operands, bytes compared before and after",
+    "C14-r8-2": "round 8 (hard mode). first run: missed; the 'mutate' step now also writes into the dictionary handed out by the innermost open block (with ... as options)",
+    "C20-r8-1": "round 8. first run: missed by C20, C02 and C03; every exponent table of the encode part is now also handed over as an integer array of the narrowest types that hold it (uint8, int16, uint16, ...)",
+    "C04-r8-1": "round 8. first run: missed by C04 and C15; 8% of the alignment cases now run under another variable prefix (default_varname 'var' / 'x' / 'zz' with a matching filter) after earlier cases ran under 'q'",
+    "C07-r8-1": "round 8. options not restored when an exception leaves the block: caught by C14 (exit paths); C07 never lets an exception cross an option block",
+    "C07-r8-2": "round 8. first run: missed by C07 and C14; float operands now also differ by 2**-40 .. 1e-9 in one coefficient (the order is exact, not up to a tolerance)",
+    "C03-r8-1": "round 8. first run: missed; constructor triples now spell the names as tuple / list / polynomial array / one string ('q3') / a prefix ('q')",
+    "C03-r8-2": "round 8. a rejected set_options call has already applied the valid keys: caught by C14 (atomic update); outside C03's quantifier",
+    "C15-r8-1": "round 8. first run: missed by C15, C17 and C04; C15's getset entry now writes into the storage of a basic-index result and compares the *source* (and a fresh copy of it) across settings",
+    "C05-r8-2": "round 8. needs complex coefficients (the agent notes the quantifier names integers and floats only); C05 now draws complex operands in one case out of seven and catches it",
+    "C10-r8-1": "round 8. first run: missed by C10 and C11; matmul now also gets a plain numeric array / list as the *left* operand",
+    "C10-r8-2": "round 8. first run: missed by C10 and C11; det now also gets matrices stacked along two and three leading axes",
     "C06-2": "first run: caught by C06, missed by C15; C15's derivative entry now differentiates with respect to several variables",
 }
 REJECTED = [
